@@ -240,18 +240,24 @@ func libdiffCase(rep *Report, s *glue.Subject, d MD, idx int) {
 		if !bytes.Equal(j1, j2) {
 			bad("json-marshal", "protojson output differs: "+firstDiffText(j1, j2))
 		}
-		// parse the reference output back into both
-		pj1, pj2 := newOf(s.Zero), dynamicpb.NewMessage(refDesc)
-		ue1, ue2 := protojson.Unmarshal(j2, pj1), protojson.Unmarshal(j2, pj2)
-		if (ue1 == nil) != (ue2 == nil) {
-			bad("json-unmarshal-error", fmt.Sprintf("protojson.Unmarshal: %v, reference %v; input %s", ue1, ue2, truncB(j2)))
-		} else if ue1 == nil {
-			rb, _ := detOpts.Marshal(pj2)
-			if got := SpecEncode(Canon(StructToIR(pj1))); !bytes.Equal(got, rb) {
-				bad("json-unmarshal", "protojson.Unmarshal result differs from the reference: "+firstDiff(got, rb))
+		// parse the reference's output in every spelling (json names, proto names + enum numbers, unpopulated fields) back into both
+		for _, po := range jopts {
+			in, perr := po.Marshal(refD)
+			if perr != nil {
+				continue
 			}
+			pj1, pj2 := newOf(s.Zero), dynamicpb.NewMessage(refDesc)
+			ue1, ue2 := protojson.Unmarshal(in, pj1), protojson.Unmarshal(in, pj2)
+			if (ue1 == nil) != (ue2 == nil) {
+				bad("json-unmarshal-error", fmt.Sprintf("protojson.Unmarshal: %v, reference %v; input %s", ue1, ue2, truncB(in)))
+			} else if ue1 == nil {
+				rb, _ := detOpts.Marshal(pj2)
+				if got := SpecEncode(Canon(StructToIR(pj1))); !bytes.Equal(got, rb) {
+					bad("json-unmarshal", "protojson.Unmarshal result differs from the reference: "+firstDiff(got, rb))
+				}
+			}
+			rep.Count("C10", "json-roundtrips", 1)
 		}
-		rep.Count("C10", "json-roundtrips", 1)
 	}
 	t1, te1 := prototext.MarshalOptions{Multiline: idx%2 == 0}.Marshal(S)
 	t2, te2 := prototext.MarshalOptions{Multiline: idx%2 == 0}.Marshal(refD)
